@@ -837,3 +837,73 @@ pub fn wellformed(m: &Message) -> Result<(), String> {
     }
     Ok(())
 }
+
+
+/// A message of exactly the same shape as `m` (same headers, payload kind, argument kinds,
+/// lengths, counts, byte order) but different content: what a cache keyed on the shape of a
+/// message instead of its identity confuses with `m`.
+pub fn twin(m: &Message) -> Message {
+    let mut t = m.clone();
+    let flip = |d: &mut Vec<u8>| {
+        for x in d.iter_mut() {
+            *x = x.wrapping_add(1);
+        }
+    };
+    match &mut t.payload {
+        PayloadContent::NonVerbose(id, d) => {
+            *id = id.wrapping_add(1);
+            flip(d);
+        }
+        PayloadContent::ControlMsg(c, d) => {
+            *c = match c {
+                ControlType::Request => ControlType::Response,
+                ControlType::Response => ControlType::Request,
+                ControlType::Unknown(n) => ControlType::Unknown(if *n >= 254 || *n < 3 { 3 } else { *n + 1 }),
+            };
+            flip(d);
+        }
+        PayloadContent::NetworkTrace(s) => {
+            for d in s.iter_mut() {
+                flip(d);
+            }
+        }
+        PayloadContent::Verbose(args) => {
+            for a in args.iter_mut() {
+                a.value = match &a.value {
+                    Value::Bool(v) => Value::Bool(v ^ 1),
+                    Value::U8(v) => Value::U8(v.wrapping_add(1)),
+                    Value::U16(v) => Value::U16(v.wrapping_add(1)),
+                    Value::U32(v) => Value::U32(v.wrapping_add(1)),
+                    Value::U64(v) => Value::U64(v.wrapping_add(1)),
+                    Value::U128(v) => Value::U128(v.wrapping_add(1)),
+                    Value::I8(v) => Value::I8(v.wrapping_add(1)),
+                    Value::I16(v) => Value::I16(v.wrapping_add(1)),
+                    Value::I32(v) => Value::I32(v.wrapping_add(1)),
+                    Value::I64(v) => Value::I64(v.wrapping_add(1)),
+                    Value::I128(v) => Value::I128(v.wrapping_add(1)),
+                    Value::F32(v) => Value::F32(f32::from_bits(v.to_bits() ^ 1)),
+                    Value::F64(v) => Value::F64(f64::from_bits(v.to_bits() ^ 1)),
+                    Value::StringVal(s) => Value::StringVal(s.chars().map(|c| if c == 'a' { 'b' } else if c.is_ascii_lowercase() { 'a' } else { c }).collect()),
+                    Value::Raw(d) => {
+                        let mut d = d.clone();
+                        flip(&mut d);
+                        Value::Raw(d)
+                    }
+                };
+            }
+        }
+    }
+    t.header.message_counter = t.header.message_counter.wrapping_add(1);
+    t
+}
+
+/// the same bytes with the byte-order flag (MSBF) of the standard header flipped: every
+/// payload field keeps its raw bytes but is to be read in the other byte order
+pub fn other_byte_order(bytes: &[u8], with_storage_header: bool) -> Vec<u8> {
+    let mut b = bytes.to_vec();
+    let s = if with_storage_header { 16 } else { 0 };
+    if b.len() > s {
+        b[s] ^= 2;
+    }
+    b
+}
